@@ -237,7 +237,7 @@ func buildRaceBinary(ctx *core.Ctx) (string, error) {
 }
 
 func RunC13(ctx *core.Ctx, rep *core.Report) {
-	rep.Rule = "(a) in one process: every seeded (workload, configuration) pair (metadata/channel maps with 8-64 keys, up to hundreds of channels) is written twice, the second time with every map argument rebuilt in reverse insertion order, and the SHA-256 of the two outputs compared; " +
+	rep.Rule = "(a) in one process: every seeded (workload, configuration) pair (metadata/channel maps with 8-64 keys, up to hundreds of channels) is written three times (16 cases at a time on separate goroutines) - as given, with every map argument rebuilt in reverse insertion order, and as given again - and the SHA-256 of the outputs compared; " +
 		"(b) the same cases are written by child processes under GOMAXPROCS 1, 2, 4 and 16 and the hashes compared across processes (incl. cases with 4 MiB zstd/lz4 chunks); " +
 		"(c) a -race build runs 16 goroutines, each with its own independent writers (alternating map orders) and readers (validating lexer, scan, index-based file and log-time order) over distinct workloads for two rounds; every output is compared with golden digests computed sequentially, and the race detector log (GORACE halt_on_error=0 log_path) is scanned for 'WARNING: DATA RACE'. " +
 		"distinct_nontrivial counts distinct (shape, configuration) pairs hashed."
@@ -249,13 +249,17 @@ func RunC13(ctx *core.Ctx, rep *core.Report) {
 		rep.Eval(1)
 		a, err1 := hashOutput(c, false)
 		b, err2 := hashOutput(c, true)
-		if err1 != nil || err2 != nil {
-			rep.Violate("writer-failed", fmt.Sprintf("%s: writer failed: %v / %v", c.Describe(), err1, err2), c.Witness())
+		a2, err3 := hashOutput(c, false)
+		if err1 != nil || err2 != nil || err3 != nil {
+			rep.Violate("writer-failed", fmt.Sprintf("%s: writer failed: %v / %v / %v", c.Describe(), err1, err2, err3), c.Witness())
 			return
 		}
 		rep.Distinct(c.Shape.String(), c.K.String())
 		rep.Count("in_process_hash_pairs", 1)
-		if a != b {
+		if a != a2 {
+			// the very same calls gave different bytes: other instances running in this process interfere, or the writer is not deterministic
+			rep.Violate("not-reproducible", fmt.Sprintf("%s: two identical runs in one process (other writers active on other goroutines) gave different output (%s vs %s)", c.Describe(), a[:16], a2[:16]), c.Witness())
+		} else if a != b {
 			rep.Violate("map-order-dependence", fmt.Sprintf("%s: output differs when the map arguments are built in reverse insertion order (%s vs %s)", c.Describe(), a[:16], b[:16]), c.Witness())
 		}
 		if i%60 == 0 {
